@@ -1,0 +1,27 @@
+//! Verification hooks, compiled only with `--cfg dmntk_verif`.
+//!
+//! A process-global, set-once callback invoked by the evaluation closures of decisions,
+//! business knowledge models and decision services right after they have acquired their
+//! read guards (`point` names the site, `id` the model element, `input` the input data of
+//! that very call). The callback may block or yield; it is used by the concurrency monitor
+//! to hold several evaluations inside the evaluator at once and to inject delays.
+
+use dmntk_feel::context::FeelContext;
+use std::sync::OnceLock;
+
+/// Callback type: `(point, element id, input data of the call)`.
+pub type Callback = Box<dyn Fn(&'static str, &str, &FeelContext) + Send + Sync>;
+
+static CALLBACK: OnceLock<Callback> = OnceLock::new();
+
+/// Installs the callback; returns `false` when one is already installed.
+pub fn set_callback(callback: Callback) -> bool {
+  CALLBACK.set(callback).is_ok()
+}
+
+/// Invokes the callback, if any.
+pub(crate) fn emit(point: &'static str, id: &str, input: &FeelContext) {
+  if let Some(callback) = CALLBACK.get() {
+    callback(point, id, input);
+  }
+}
